@@ -93,8 +93,33 @@ def run(ctx):
     core.lean_phase(ctx)
     rng = ctx.rng
     reqs, metas = [], []
+
+    def flush():
+        outs = ctx.driver.run(reqs) if reqs else []
+        for req, (op, replay, impl), out in zip(reqs, metas, outs):
+            ctx.count("model_requests")
+            if "ok" not in out:
+                ctx.mismatch(op, replay, "answer", out)
+                continue
+            o = out["ok"]
+            if op == "fill":
+                if impl and o.get("implIsFill") is not True:
+                    ctx.mismatch("isFill(real answer)", replay, True, o)
+                if o.get("model") is not None and o.get("modelIsFill") is not True:
+                    ctx.mismatch("isFill(model answer)", replay, True, o)
+                if (o.get("model") is None) != (not impl):
+                    ctx.mismatch("fill some/none", replay, "some" if impl else "none", o)
+            else:
+                if impl is not None and o.get("implIsChain") is not True:
+                    ctx.mismatch("isWrapChain(real answer)", replay, True, o)
+                if (o.get("model") is None) != (impl is None) or (impl is not None and len(o["model"]) != impl):
+                    ctx.mismatch("wrap some/none/length", replay, impl, o)
+        del reqs[:], metas[:]
+
     fam = schemas.family()
     for si in range(ctx.budget(70, 300)):
+        if len(reqs) >= 15000:
+            flush()     # keep memory bounded in long runs
         info = fam[si % len(fam)] if si < len(fam) or rng.random() < 0.2 else \
             ((schemas.layered_schema(rng) if rng.random() < 0.3 else None) or schemas.random_schema(rng))
         schema = info.schema
@@ -191,25 +216,7 @@ def run(ctx):
                   ctx.count("create_and_fill:some")
               else:
                   ctx.count("create_and_fill:none")
-    outs = ctx.driver.run(reqs) if reqs else []
-    for req, (op, replay, impl), out in zip(reqs, metas, outs):
-        ctx.count("model_requests")
-        if "ok" not in out:
-            ctx.mismatch(op, replay, "answer", out)
-            continue
-        o = out["ok"]
-        if op == "fill":
-            if impl and o.get("implIsFill") is not True:
-                ctx.mismatch("isFill(real answer)", replay, True, o)
-            if o.get("model") is not None and o.get("modelIsFill") is not True:
-                ctx.mismatch("isFill(model answer)", replay, True, o)
-            if (o.get("model") is None) != (not impl):
-                ctx.mismatch("fill some/none", replay, "some" if impl else "none", o)
-        else:
-            if impl is not None and o.get("implIsChain") is not True:
-                ctx.mismatch("isWrapChain(real answer)", replay, True, o)
-            if (o.get("model") is None) != (impl is None) or (impl is not None and len(o["model"]) != impl):
-                ctx.mismatch("wrap some/none/length", replay, impl, o)
+    flush()
     return ctx.finish(
         rule="a case is (schema, node type, match state, following fragment + start index, to_end) for fill_before, "
              "(schema, node type, match state, target type) for find_wrapping — every state of every content automaton of the "
